@@ -155,12 +155,16 @@ def run_qcconfig(out, drv, rng, maxn):
     case = {"frontend": "qcconfig", "table": tab, "contexts": ctxs}
     nontriv = any(not all(m) for m in masks)
     out.record(case, nontriv, ["fe:qcconfig", f"ctx:{len(ctxs)}"])
-    kw = {"inp": sc.fl(tab["cols"]["_stream"]), "tinp": sc.times_ns(tab)}
+    container = rng.choice(["nan_array", "masked_junk", "list"])
+    conv = {"nan_array": sc.fl, "masked_junk": sc.fl_masked, "list": lambda v: [float("nan") if x is None else float(x) for x in v]}[container]
+    case["container"] = container
+    out.tags[f"qcconfig-container:{container}"] += 1
+    kw = {"inp": conv(tab["cols"]["_stream"]), "tinp": sc.times_ns(tab)}
     if "z" in tab["axes"]:
-        kw["zinp"] = sc.fl(tab["axes"]["z"])
+        kw["zinp"] = conv(tab["axes"]["z"])
     if "lat" in tab["axes"]:
-        kw["lat"] = sc.fl(tab["axes"]["lat"])
-        kw["lon"] = sc.fl(tab["axes"]["lon"])
+        kw["lat"] = conv(tab["axes"]["lat"])
+        kw["lon"] = conv(tab["axes"]["lon"])
     try:
         with warnings.catch_warnings():
             warnings.simplefilter("ignore")
